@@ -259,6 +259,64 @@ async def run_proto_late(run: dict) -> list[dict]:
     return out
 
 
+async def run_proto_recon(run: dict) -> list[dict]:
+    """Life cycle of one protocol object (DevFilter: Lost / Made): after the connection cfg.act describes, the
+    connection is lost and made again - opts["walk"] = what each later transport reports as its active gateway
+    ("gwy" / "foreign" / "none": the same dongle, another one, an unknown one).  The rows are offered in every
+    phase, also while the connection is down (receive only: there is nothing to send through); each phase is an
+    item of its own whose `conns` says what had happened to the connection until then - which configuration is
+    in force in a phase is DevFilter!InForce's business, not this function's.  Nothing is done to the protocol
+    between the phases but what a transport does: call_soon(connection_lost, None), connection_made(t, ramses=True)."""
+    loop = asyncio.get_running_loop()
+    VDT._loop = loop
+    cfg, ids, opts, got = run["cfg"], run["ids"], run.get("opts", {}), []
+    p, active = _make_protocol(PortProtocol, cfg, ids, got)
+    t = Xport(p, loop, active)
+    p.connection_made(t, ramses=True)
+    await _drain()
+    conns: list[str] = []
+    phases: list[dict] = []
+
+    async def offer(up: bool) -> None:
+        out = []
+        for n, row in enumerate(run["rows"]):
+            fr = frame_of(row, ids, n)
+            o = _blank(row)
+            if row["dir"] == "rx":
+                if not decodable(fr, False):
+                    continue
+                pkt = t.make_pkt(fr)
+                o["wanted"] = int(p._is_wanted_addrs(pkt.src.id, pkt.dst.id))
+                got.clear()
+                p.pkt_received(pkt)
+                await _drain()
+                o["delivered"] = len(got) > 0
+            else:
+                if not up or not decodable(fr, True):
+                    continue
+                cmd = Command(fr)
+                o["wanted"] = int(p._is_wanted_addrs(cmd.src.id, cmd.dst.id, sending=True))
+                await _send(lambda c: p.send_cmd(c, qos=QosParams(max_retries=0, timeout=2)), cmd, t, o)
+            out.append(o)
+        phases.append({"conns": list(conns), "rows": out})
+
+    await offer(True)
+    for act in opts["walk"]:
+        t.close()                           # the transport goes away and says so: call_soon(connection_lost, None)
+        await _drain()
+        conns.append("lost")
+        await offer(False)
+        t = Xport(p, loop, {"gwy": ids["Gwy"], "foreign": ids["Foreign18"], "none": None}[act])
+        # from the loop, as a transport does it: an exception in connection_made() goes where it goes in the field
+        # (the loop's exception handler), and the rows meet the protocol in the state that leaves it in
+        loop.call_soon(lambda t=t: p.connection_made(t, ramses=True))
+        await _drain()
+        conns.append(act)
+        await offer(True)
+    run["_phases"] = phases
+    return phases[-1]["rows"]
+
+
 async def run_proto_read(run: dict) -> list[dict]:
     loop = asyncio.get_running_loop()
     VDT._loop = loop
@@ -365,22 +423,60 @@ async def run_gateway(run: dict) -> list[dict]:
     return out
 
 
-async def run_send(run: dict) -> list[dict]:
-    cfg, ids, out = run["cfg"], run["ids"], []
-    gwy, t, _got = await _make_gateway(cfg, ids, False)
-    for n, row in enumerate(run["rows"]):
-        if row["dir"] != "tx":
-            continue
-        fr = frame_of(row, ids, n)
-        if not decodable(fr, True):
-            continue
-        o = _blank(row)
-        cmd = Command(fr)
-        o["wanted"] = int(gwy._protocol._is_wanted_addrs(cmd.src.id, cmd.dst.id, sending=True))
-        await _send(lambda c: gwy.async_send_cmd(c, max_retries=0, timeout=2), cmd, t, o)
-        out.append(o)
+async def _restart_gateway(gwy, ids: dict, act: str):
+    """Gateway.stop() + Gateway.start() of the same object (the public way to a new connection of its protocol);
+    the transport the engine is given now reports `act` as its active gateway."""
+    import ramses_tx.gateway as txgw
+
+    loop = asyncio.get_running_loop()
+    holder: dict = {}
+
+    async def tf(protocol, **kw):  # noqa: ANN001
+        t = Xport(protocol, loop, {"gwy": ids["Gwy"], "foreign": ids["Foreign18"], "none": None}[act])
+        holder["t"] = t
+        loop.call_soon(lambda: protocol.connection_made(t, ramses=True))
+        return t
+
     await gwy.stop()
-    return out
+    await _drain(5)
+    old = txgw.transport_factory
+    txgw.transport_factory = tf
+    try:
+        await gwy.start()
+    finally:
+        txgw.transport_factory = old
+    await _drain(5)
+    return holder["t"]
+
+
+async def run_send(run: dict) -> list[dict]:
+    """opts["walk"] (level `send_recon`): after the rows the gateway is stopped and started again, its new transport
+    reporting the next act of the walk, and the rows are sent again - one phase (item) per connection."""
+    cfg, ids, opts = run["cfg"], run["ids"], run.get("opts", {})
+    gwy, t, _got = await _make_gateway(cfg, ids, False)
+    conns: list[str] = []
+    phases: list[dict] = []
+    for act in [None] + list(opts.get("walk", [])):
+        if act is not None:
+            t = await _restart_gateway(gwy, ids, act)
+            conns += ["lost", act]
+        out = []
+        for n, row in enumerate(run["rows"]):
+            if row["dir"] != "tx":
+                continue
+            fr = frame_of(row, ids, n)
+            if not decodable(fr, True):
+                continue
+            o = _blank(row)
+            cmd = Command(fr)
+            o["wanted"] = int(gwy._protocol._is_wanted_addrs(cmd.src.id, cmd.dst.id, sending=True))
+            await _send(lambda c: gwy.async_send_cmd(c, max_retries=0, timeout=2), cmd, t, o)
+            out.append(o)
+        phases.append({"conns": list(conns), "rows": out})
+    await gwy.stop()
+    if "walk" in opts:
+        run["_phases"] = phases
+    return phases[-1]["rows"]
 
 
 async def run_file(run: dict) -> list[dict]:
@@ -443,6 +539,11 @@ async def run_app(run: dict) -> list[dict]:
             # allow for GWY not being in known_list"): asking for that device by name is not a packet giving rise to
             # a device - not judged here (the packet levels do judge a block-listed gateway) (J28)
             continue
+        # the same holds whichever id is the gateway's own: the foreign 18: id when the transport reports it as the active
+        # gateway, the placeholder 18:000730 when the transport reports none (protocol.hgi_id falls back to it)
+        if (role == "Foreign18" and cfg["act"] == "foreign" and cfg["fgn"] == "block") or \
+                (role == "Placeholder" and cfg["act"] == "none" and cfg["ph"] == "block"):
+            continue
         for again in (False, True):     # asked once / asked again after having been refused or created once
             row = {"src": role, "dst": "Null", "shape": "__a2", "dir": "rx"}
             o = _blank(row)
@@ -464,8 +565,8 @@ async def run_app(run: dict) -> list[dict]:
     return out
 
 
-RUNNERS = {"app": run_app, "proto_port": run_proto_port, "proto_read": run_proto_read, "proto_late": run_proto_late,
-           "gateway": run_gateway, "send": run_send,
+RUNNERS = {"app": run_app, "proto_port": run_proto_port, "proto_recon": run_proto_recon, "proto_read": run_proto_read, "proto_late": run_proto_late,
+           "gateway": run_gateway, "send": run_send, "send_recon": run_send,
            "file": run_file, "restore": run_restore}
 
 
@@ -480,6 +581,16 @@ def execute_runs(runs: list[dict]) -> tuple[list[dict], int]:
         rows, loop = vloop.run(lambda: RUNNERS[lvl](run))
         for ctx in loop.exc[:3]:
             LOOP_EXC.append(f"{lvl}: {ctx.get('message')} {ctx.get('exception')!r}"[:300])
+        if lvl in ("proto_recon", "send_recon"):    # one item per phase of the life cycle, each with the history that led to it
+            for ph in run.pop("_phases"):
+                up = not ph["conns"] or ph["conns"][-1] != "lost"
+                skipped += sum(1 for r in run["rows"] if (up and lvl == "proto_recon") or
+                               r["dir"] == ("tx" if lvl == "send_recon" else "rx")) - len(ph["rows"])
+                for r in ph["rows"]:
+                    r.pop("exc", None)
+                items.append({"cfg": run["cfg"], "conns": ph["conns"], "lvl": lvl, "ids": run["ids"], "opts": opts,
+                              "rows": ph["rows"]})
+            continue
         want = sum(1 for r in run["rows"] if lvl in ("proto_port", "proto_read", "proto_late") or
                    r["dir"] == ("tx" if lvl == "send" else "rx"))
         if lvl != "app":    # (its rows are its own: one per id role)
